@@ -115,11 +115,17 @@ func judge(out *pipe.Outcome, ix *pipe.Index) pipe.Verdict {
 	// ---- plugin sessions: at most one run at a time
 	type sess struct{ open, tear int }
 	sessions := map[string][]*sess{} // connector -> sessions in order
+	tornEarly := map[string]bool{}
 	for i := range evs {
 		e := &evs[i]
 		switch e.Kind {
 		case rig.KSrcOpen, rig.KDstOpen:
 			if e.Err != "" {
+				continue
+			}
+			if tornEarly[fmt.Sprintf("%s#%d", e.Comp, e.Sess)] {
+				// the built-in sandbox detached this Open when its context was cancelled and
+				// the host already tore the plugin down: the late Open belongs to no run
 				continue
 			}
 			ss := sessions[e.Comp]
@@ -130,6 +136,7 @@ func judge(out *pipe.Outcome, ix *pipe.Index) pipe.Verdict {
 		case rig.KSrcTeardown, rig.KDstTeardown:
 			ss := sessions[e.Comp]
 			if e.Note == "never-opened" {
+				tornEarly[fmt.Sprintf("%s#%d", e.Comp, e.Sess)] = true
 				continue
 			}
 			if len(ss) > 0 && ss[len(ss)-1].tear < 0 {
@@ -192,7 +199,8 @@ func judge(out *pipe.Outcome, ix *pipe.Index) pipe.Verdict {
 			live := liveAt(c.ctl)
 			running := statusAt(c.ctl) == "Running" && statusStable(c.ctl, c.ret, "Running") || c.err == "" && statusAt(c.ctl) == "Running"
 			// (a) reported running with a live run throughout the call: the stop must act on that run
-			if live != nil && statusAt(c.ctl) == "Running" && statusStable(c.ctl, c.ret, "Running") && (live.tear < 0 || live.tear > c.ret) {
+			// "reported as running" = the status the API reports (in-memory) at the call AND at the return
+			if live != nil && evs[c.ctl].Note == "Running" && evs[c.ret].Note == "Running" && statusAt(c.ctl) == "Running" && statusStable(c.ctl, c.ret, "Running") && (live.tear < 0 || live.tear > c.ret) {
 				v.Stats["stops_on_live_running_pipeline"]++
 				if c.err != "" && !strings.Contains(c.err, "already triggered") && !strings.Contains(c.err, "stop already") {
 					add("stop-refused-on-live-run", fmt.Sprintf("%s at event %d: the pipeline is reported Running and its run (source session opened at %d) is live, yet the call returned %q", c.op, c.ctl, live.open, c.err), live.open, c.ctl, c.ret)
@@ -221,7 +229,7 @@ func judge(out *pipe.Outcome, ix *pipe.Index) pipe.Verdict {
 			}
 		case "WaitPipeline":
 			live := liveAt(c.ctl)
-			if live != nil && statusAt(c.ctl) == "Running" {
+			if live != nil && statusAt(c.ctl) == "Running" && evs[c.ctl].Note == "Running" {
 				v.Stats["waits_on_live_run"]++
 				if live.tear < 0 || live.tear > c.ret {
 					add("wait-returned-before-run-ended", fmt.Sprintf("WaitPipeline called at event %d on a Running pipeline returned at event %d while the live run's source session (opened at %d) was not torn down", c.ctl, c.ret, live.open), live.open, c.ctl, c.ret)
@@ -240,9 +248,16 @@ func judge(out *pipe.Outcome, ix *pipe.Index) pipe.Verdict {
 					if res == "" {
 						res = statusAt(c.ret)
 					}
+					// a failure that coincides with a stop request may legitimately be reported either way
+					failedDuring := false
+					for q := live.open; q <= live.tear && q < len(evs); q++ {
+						if evs[q].Kind == rig.KNote && (strings.Contains(evs[q].Note, "run fails")) || evs[q].Kind == rig.KFailure {
+							failedDuring = true
+						}
+					}
 					switch res {
 					case "UserStopped", "SystemStopped":
-						if c.err != "" {
+						if c.err != "" && !failedDuring {
 							add("wait-result-not-of-that-run", fmt.Sprintf("the run ended %s but WaitPipeline returned error %q", res, c.err), live.tear, c.ret)
 						}
 					case "Degraded":
